@@ -17,11 +17,11 @@ Definition py_round (x : float) : Z :=
   | _ => 0%Z
   end.
 
-(** the constructor: step = min(100, round(sample_period * window_size)), ph_threshold = round(0.01 * window_size),
+(** the constructor: step = max(1, min(100, round(sample_period * window_size))), ph_threshold = round(0.01 * window_size),
     bins = floor(sqrt(window_size)) *)
 Definition pc_mk (w : Z) (sp delta : float) (inter : bool) : @pc_params NumFloat :=
   @Build_pc_params NumFloat w
-    (Z.min 100 (py_round (PrimFloat.mul sp (float_ofZ w))))
+    (Z.max 1 (Z.min 100 (py_round (PrimFloat.mul sp (float_ofZ w)))))
     (py_round (PrimFloat.mul 0x1.47ae147ae147bp-7%float (float_ofZ w)))
     (Z.sqrt w) delta inter.
 
